@@ -37,7 +37,7 @@ var originNames = map[string][]string{
 	"dns":  {"origin.example.org", "matrix.org", "a-b.c-d.example", "localhost"},
 	"port": {"origin.example.org:8448", "localhost:8800", "matrix.org:443"},
 	"ipv4": {"203.0.113.7", "203.0.113.7:8448", "[::1]"}, // literals without letters: one spelling only
-	"ipv6": {"[2001:db8::7]:8448", "[fe80::1]", "[2001:db8:0:0:0:0:0:7]:443"},
+	"ipv6": {"[2001:db8::7]:8448", "[fe80::1]", "[2001:db8:0:0:0:0:0:7]:443", "[::ffff:203.0.113.7]:8448", "[2001:db8:1:2:3:4:5::]", "[fe80::]"},
 	// one grammar violation each (FedRequest.tla ExtraInvalidOrigins)
 	"inv_brk4":       {"[10.1.2.3]"},
 	"inv_brk4port":   {"[10.1.2.3]:8800"},
@@ -52,6 +52,13 @@ var originNames = map[string][]string{
 	"inv_bracket":    {"[2001:db8::7", "2001:db8::7]", "[2001:db8::7:8448"},
 	"inv_quote":      {"origin\".example.org", "origin.example.org\",key=\"ed25519:x"},
 	"inv_backslash":  {"origin\\.example.org", "origin.example.org\\"},
+	"inv_zone":       {"[fe80::1%eth0]", "[fe80::1%1]", "[fe80::1%25eth0]", "[fe80::%lo]", "[::1%0]"},
+	"inv_zoneport":   {"[fe80::1%eth0]:8448", "[fe80::1%1]:8448", "[fe80::1%25eth0]:8448", "[2001:db8::7%en0]:443"},
+	"inv_v6groups":   {"[1:2:3:4:5:6:7:8:9]", "[1:2:3:4:5:6:7]:8448", "[1:2:3:4:5:6:7:8::]", "[1:2:3:4:5:6:7:1.2.3.4]"},
+	"inv_v6dcolon":   {"[2001::db8::7]", "[::1::]:8448", "[1:::2]"},
+	"inv_v6hex":      {"[2001:db8::g]", "[12345::1]:8448", "[fe80::1.2.3]", "[::ffff:01.2.3.4]"},
+	"inv_v6empty":    {"[]", "[]:8448", "[:]"},
+	"inv_v6trail":    {"[2001:db8::7]8448", "[2001:db8::7]:", "[2001:db8::7]x", "[2001:db8::7]:8448]"},
 	"inv_long":       {strings.Repeat("a123456789.", 23) + "abc", strings.Repeat("a123456789.", 23) + "abc:8448"},
 	"invalid":        {"origin_bad.example.org", "bad name.example.org", "[2001:db8::7", "origin.example.org:8448:1", "exämple.org", "origin.example.org/x"},
 }
@@ -111,7 +118,7 @@ var destF = map[string][]string{
 	"port":    {"foreign.example.org:8448", "dest.example.com:8449"},
 	"ipv4":    {"192.0.2.55", "198.51.100.9:1"},
 	"ipv6":    {"[2001:db8::f00]:8448", "[2001:db8::9]:8449"},
-	"invalid": {"dest_bad.example.com", "dest.example.com:8448:1"},
+	"invalid": {"dest_bad.example.com", "dest.example.com:8448:1", "[fe80::9%eth0]:8448", "[fe80::9%1]", "[2001:db8::9]8448"},
 }
 
 const destF2 = "elsewhere.example.org"
@@ -277,4 +284,54 @@ func sameJSON(a, b []byte) bool {
 	ja, _ := json.Marshal(x)
 	jb, _ := json.Marshal(y)
 	return bytes.Equal(ja, jb)
+}
+
+// methodSpelling is the method word m in another letter case.
+func methodSpelling(m string, k int) string {
+	up, lo := strings.ToUpper(m), strings.ToLower(m)
+	switch k {
+	case 0:
+		return lo
+	case 1:
+		return up[:1] + lo[1:]
+	case 2:
+		return lo[:1] + up[1:]
+	}
+	return lo[:1] + up[1:2] + lo[2:]
+}
+
+// letterPositions are the ASCII letters of a request target outside its %XX escapes.
+func letterPositions(u string) []int {
+	var out []int
+	for i := 0; i < len(u); i++ {
+		if u[i] == '%' {
+			i += 2
+			continue
+		}
+		if c := u[i] | 0x20; c >= 'a' && c <= 'z' {
+			out = append(out, i)
+		}
+	}
+	return out
+}
+
+// flipLetter is the target with one letter (the k-th, modulo) in the other case.
+func flipLetter(u string, k int) (string, bool) {
+	ps := letterPositions(u)
+	if len(ps) == 0 {
+		return u, false
+	}
+	b := []byte(u)
+	b[ps[k%len(ps)]] ^= 0x20
+	return string(b), true
+}
+
+func withLetters(us []string) []string {
+	var out []string
+	for _, u := range us {
+		if len(letterPositions(u)) > 0 {
+			out = append(out, u)
+		}
+	}
+	return out
 }
